@@ -4,11 +4,13 @@ import (
 	"context"
 	"errors"
 	"fmt"
+	"log/slog"
 	"math/rand/v2"
 	"net/http"
 	"net/http/httptest"
 	"strings"
 	"testing"
+	"testing/synctest"
 
 	sse "github.com/tmaxmax/go-sse"
 
@@ -369,6 +371,13 @@ func TestC16(t *testing.T) {
 			prov.returnSendErr = true
 		}
 		srv := &sse.Server{Provider: prov}
+		// a third of the servers log (the handler discards), a third have a Logger that returns nil
+		switch logMode := rng.IntN(3); logMode {
+		case 1:
+			srv.Logger = func(*http.Request) *slog.Logger { r.Count("logger_calls", 1); return slog.New(slog.DiscardHandler) }
+		case 2:
+			srv.Logger = func(*http.Request) *slog.Logger { return nil }
+		}
 		topics := []string{"t1", "t2"}
 		onCalled := 0
 		logAtOn := 0
@@ -484,6 +493,78 @@ func TestC16(t *testing.T) {
 		r.Eval(fw.Hash("publish"), true)
 		if len(prov.pubs) != 2 || !eqStrings(prov.pubs[0], []string{sse.DefaultTopic}) || !eqStrings(prov.pubs[1], []string{"a", "b"}) {
 			r.Violation(key, []string{"publish_topics_wrong"}, map[string]any{"got": prov.pubs}, "C16: Server.Publish passed topics %q to the provider", prov.pubs)
+		}
+	}
+	// (E) the zero-value Server (its own Joe): a session subscribed through ServeHTTP gets exactly the
+	// messages published to its topics, with the header set before the first byte
+	ne := r.N(60, 600)
+	for i := 0; i < ne; i++ {
+		if !r.Mine("E", i) {
+			continue
+		}
+		key := fw.Key("E", i)
+		rng := r.Rand("E", i)
+		shape := []string{"flusher", "flusherror", "both", "unwrap2-both"}[rng.IntN(4)]
+		withTopics := rng.IntN(2) == 0
+		npub := 1 + rng.IntN(6)
+		r.Begin(key, fmt.Sprintf("zero-value server shape=%s topics=%v pubs=%d", shape, withTopics, npub))
+		var want strings.Builder
+		var body string
+		var ctAtFirstWrite string
+		var pubErrs []error
+		synctest.Test(t, func(t *testing.T) {
+			srv := &sse.Server{}
+			if withTopics {
+				srv.OnSession = func(http.ResponseWriter, *http.Request) ([]string, bool) { return []string{"t1", "t2"}, true }
+			}
+			core := mon.NewCoreRW()
+			w, _ := mon.MakeRW(shape, core)
+			req := httptest.NewRequest(http.MethodGet, "http://verif.invalid/", http.NoBody)
+			done := make(chan struct{})
+			go func() { defer close(done); srv.ServeHTTP(w, req) }()
+			synctest.Wait()
+			for k := 0; k < npub; k++ {
+				m := &sse.Message{}
+				m.AppendData("p" + fmt.Sprint(k))
+				var tp []string
+				switch rng.IntN(4) {
+				case 0: // no topics: DefaultTopic
+				case 1:
+					tp = []string{"t2"}
+				case 2:
+					tp = []string{"elsewhere"}
+				case 3:
+					tp = []string{"t1", "t2", sse.DefaultTopic}
+				}
+				match := !withTopics && (len(tp) == 0 || len(tp) == 3) || withTopics && (len(tp) == 1 && tp[0] == "t2" || len(tp) == 3)
+				if match {
+					want.WriteString(m.String())
+				}
+				pubErrs = append(pubErrs, srv.Publish(m, tp...))
+				synctest.Wait()
+			}
+			srv.Shutdown(context.Background())
+			<-done
+			body = core.Body.String()
+			for _, l := range core.Log {
+				if l.Op == "write" {
+					ctAtFirstWrite = l.CT
+					break
+				}
+			}
+		})
+		r.Count("zero_value_server_sessions", 1)
+		r.Eval(fw.Hash("E", shape, fmt.Sprint(withTopics, npub, want.String())), true)
+		for k, e := range pubErrs {
+			if e != nil {
+				r.Violation(key, []string{"publish_failed"}, map[string]any{"shape": shape}, "C16: zero-value Server: Publish #%d returned %v", k+1, e)
+			}
+		}
+		if body != want.String() {
+			r.Violation(key, []string{"body_not_concatenation"}, map[string]any{"shape": shape, "on_session_topics": withTopics, "got": fw.Q(body), "want": fw.Q(want.String())}, "C16: zero-value Server: the session's body is not the concatenation of the messages published to its topics")
+		}
+		if body != "" && ctAtFirstWrite != "text/event-stream" {
+			r.Violation(key, []string{"content_type_not_set_before_first_byte"}, map[string]any{"shape": shape, "content_type": ctAtFirstWrite}, "C16: zero-value Server: Content-Type at the first body write is %q", ctAtFirstWrite)
 		}
 	}
 }
